@@ -9,7 +9,17 @@ package main
 // byte corruptions — under the panic-recording wrapper.  Uses the producers of the C04 harness.
 
 import (
+	"crypto"
+	"crypto/ecdsa"
+	"crypto/ed25519"
+	crand "crypto/rand"
+	"crypto/rsa"
+	"crypto/sha256"
+	"crypto/sha512"
+	"encoding/asn1"
+	"encoding/json"
 	"fmt"
+	"math/big"
 	"math/rand"
 	"net/http"
 	"net/http/httptest"
@@ -161,6 +171,149 @@ func (env *verifEnv) c10ClaimVariants(orig *symTok) []*symTok {
 	return out
 }
 
+// ---------------------------------------------------------------- header-level mutations
+//
+// The protected header of a compact JWS is attacker-controlled JSON that every token parser reads
+// BEFORE (and independently of) the signature: each registered header parameter, and an unknown
+// one, is given a value of every JSON type.  Two signature modes: junk (anyone can send it) and
+// genuine - the mutated header really signed with the server's own key (a token the server's
+// parsers accept as theirs as far as the signature goes), where the server key can sign at all.
+
+// sign header.payload with the server's key, by hand (go-jose's signer does not let a caller choose
+// the type of registered header members)
+func (env *verifEnv) c10RawSign(signingInput string) (sig []byte, alg string, ok bool) {
+	signer := env.state.Signer
+	switch pub := signer.Public().(type) {
+	case *rsa.PublicKey:
+		d := sha256.Sum256([]byte(signingInput))
+		sig, err := signer.Sign(crand.Reader, d[:], crypto.SHA256)
+		return sig, "RS256", err == nil
+	case *ecdsa.PublicKey:
+		var digest []byte
+		var h crypto.Hash
+		switch pub.Curve.Params().BitSize {
+		case 256:
+			d := sha256.Sum256([]byte(signingInput))
+			digest, h, alg = d[:], crypto.SHA256, "ES256"
+		case 384:
+			d := sha512.Sum384([]byte(signingInput))
+			digest, h, alg = d[:], crypto.SHA384, "ES384"
+		default:
+			d := sha512.Sum512([]byte(signingInput))
+			digest, h, alg = d[:], crypto.SHA512, "ES512"
+		}
+		der, err := signer.Sign(crand.Reader, digest, h)
+		if err != nil {
+			return nil, alg, false
+		}
+		var rs struct{ R, S *big.Int }
+		if _, err := asn1.Unmarshal(der, &rs); err != nil {
+			return nil, alg, false
+		}
+		n := (pub.Curve.Params().BitSize + 7) / 8
+		out := make([]byte, 2*n)
+		rs.R.FillBytes(out[:n])
+		rs.S.FillBytes(out[n:])
+		return out, alg, true
+	case ed25519.PublicKey:
+		sig, err := signer.Sign(crand.Reader, []byte(signingInput), crypto.Hash(0))
+		return sig, "EdDSA", err == nil
+	}
+	return nil, "RS256", false
+}
+
+// a JSON object with members in the given order (duplicates allowed)
+type c10Member struct {
+	name string
+	raw  string // JSON text of the value
+}
+
+func c10Object(ms []c10Member) string {
+	var parts []string
+	for _, m := range ms {
+		n, _ := json.Marshal(m.name)
+		parts = append(parts, string(n)+":"+m.raw)
+	}
+	return "{" + strings.Join(parts, ",") + "}"
+}
+
+var c10HeaderParams = []string{"alg", "typ", "kid", "cty", "crit", "jwk", "jku", "x5c", "x5t", "x5t#S256", "x5u", "b64", "nonce", "zip", "enc", "verif-unknown"}
+
+func c10JSONTypeValues() []c10Member {
+	deep := strings.Repeat("[", 300) + strings.Repeat("]", 300)
+	deepObj := strings.Repeat(`{"a":`, 200) + "1" + strings.Repeat("}", 200)
+	return []c10Member{
+		{"string", `"x"`}, {"empty string", `""`}, {"long string", `"` + strings.Repeat("A", 6000) + `"`},
+		{"number", `7`}, {"negative number", `-1`}, {"fraction", `1.5`}, {"huge number", `123456789012345678901234567890123456789012345678901234567890`}, {"huge exponent", `1e999`},
+		{"true", `true`}, {"false", `false`}, {"null", `null`},
+		{"empty array", `[]`}, {"array of strings", `["a","b"]`}, {"mixed array", `["a",1,null,{}]`}, {"array of numbers", `[1,2]`},
+		{"empty object", `{}`}, {"object", `{"a":"b"}`}, {"object of objects", `{"kty":{"a":1},"n":[],"e":null}`},
+		{"deep array", deep}, {"deep object", deepObj},
+	}
+}
+
+// header variants of one genuine token: the payload is kept, the protected header is rebuilt with one
+// member set to a value of each JSON type (replacing the genuine member, or added; also as a
+// duplicate after the genuine member)
+func (env *verifEnv) c10HeaderMemberVariants(orig *symTok, stride, phase int) []*symTok {
+	parts := strings.Split(orig.raw, ".")
+	if len(parts) != 3 {
+		return nil
+	}
+	_, alg, canSign := env.c10RawSign("probe")
+	sid := env.signerKeyID()
+	var out []*symTok
+	n := 0
+	emit := func(ms []c10Member, note string) {
+		n++
+		h := b64e([]byte(c10Object(ms)))
+		in := h + "." + parts[1]
+		// junk signature: what any unauthenticated client can send
+		if stride <= 1 || (n+phase)%stride == 0 {
+			out = append(out, newSymTok(in+"."+parts[2], sid, true, "hdr-member: "+note+" (old signature)"))
+		}
+		if canSign {
+			if sig, _, ok := env.c10RawSign(in); ok {
+				out = append(out, newSymTok(in+"."+b64e(sig), sid, false, "hdr-member: "+note+" (signed by the server key)"))
+			}
+		}
+	}
+	base := []c10Member{{"alg", `"` + alg + `"`}, {"typ", `"JWT"`}}
+	for _, name := range c10HeaderParams {
+		for _, v := range c10JSONTypeValues() {
+			var ms []c10Member
+			replaced := false
+			for _, b := range base {
+				if b.name == name {
+					ms = append(ms, c10Member{name, v.raw})
+					replaced = true
+				} else {
+					ms = append(ms, b)
+				}
+			}
+			if !replaced {
+				ms = append(ms, c10Member{name, v.raw})
+			}
+			emit(ms, name+" := "+v.name)
+		}
+		// the member twice: genuine first, confused second, and the other way round
+		for _, v := range []c10Member{{"number", `7`}, {"object", `{"a":"b"}`}, {"null", `null`}} {
+			emit(append(append([]c10Member{}, base...), c10Member{name, v.raw}), name+" duplicated, second := "+v.name)
+			emit(append([]c10Member{{name, v.raw}}, base...), name+" duplicated, first := "+v.name)
+		}
+	}
+	// the header itself of another JSON type / not JSON
+	for _, h := range []string{`[]`, `null`, `7`, `"x"`, `true`, `{}`, `{"alg":null}`, `{"alg":"` + alg + `"`, ``, `{"alg":"` + alg + `","crit":["typ"],"typ":7}`,
+		`{"alg":"` + alg + `","crit":["b64"],"b64":false}`, `{"alg":"` + alg + `","crit":[7]}`, `{"alg":"` + alg + `","typ":"JWT"}{"typ":7}`} {
+		in := b64e([]byte(h)) + "." + parts[1]
+		out = append(out, newSymTok(in+"."+parts[2], sid, true, "hdr-whole: "+h+" (old signature)"))
+		if sig, _, ok := env.c10RawSign(in); ok && canSign {
+			out = append(out, newSymTok(in+"."+b64e(sig), sid, false, "hdr-whole: "+h+" (signed by the server key)"))
+		}
+	}
+	return out
+}
+
 func c10TokenStage(t *testing.T, env *verifEnv, res *verifResult, rng *rand.Rand) {
 	p := env.c04Produce(t)
 	genuine := []*symTok{p.session, p.sessionLogin, p.cli, p.cliPage, p.storage, p.code, p.access, p.id}
@@ -169,6 +322,7 @@ func c10TokenStage(t *testing.T, env *verifEnv, res *verifResult, rng *rand.Rand
 		genuine = append(genuine, newSymTok(code, env.signerKeyID(), false, "producer:code(pkce client)"))
 	}
 	var corpus []*symTok
+	hdrBases := 0
 	for _, g := range genuine {
 		if g == nil {
 			continue
@@ -187,6 +341,14 @@ func c10TokenStage(t *testing.T, env *verifEnv, res *verifResult, rng *rand.Rand
 		}
 		corpus = append(corpus, vars...)
 		corpus = append(corpus, env.tokHeaderVariants(g.raw)...)
+		hdrBases++
+		if verifThorough() {
+			corpus = append(corpus, env.c10HeaderMemberVariants(g, 1, 0)...)
+		} else if hdrBases == 1 || (hdrBases-2)%4 == int(verifSeed())%4 {
+			// quick: the session cookie (genuine signature for every member x type, the junk-signature
+			// twin for every third) and a rotating quarter of the other kinds
+			corpus = append(corpus, env.c10HeaderMemberVariants(g, 3, int(verifSeed()))...)
+		}
 		nc := 6
 		if verifThorough() {
 			nc = 60
